@@ -24,7 +24,8 @@ def guard_decide(ctx, rule: str, fn, names: List[str], reference, values: Option
     b = body if body is not None else A.body_of(fn.node)
     construct = construct or fn.qual
     try:
-        n, cex = ordereval.decide(b, names, reference, lo=lo, hi=hi, values=values, sym_factory=sym_factory, consts=consts)
+        n, cex = ordereval.decide(b, names, reference, lo=lo, hi=hi, values=values, sym_factory=sym_factory, consts=consts,
+                                  call_value=ctx.model_calls(module=fn.module.relpath) if fn is not None else None)
     except ordereval.Unsupported as e:
         raise AnalysisError(f"{rule}: {construct} left the order-type fragment: {e}")
     chk.exhaustive_rules.add(rule)
@@ -325,9 +326,26 @@ def find_regex_call(ctx, fn):
 
 
 def rule_value_to_int(ctx) -> None:
-    fn = ctx.func(MISC, "value_to_int")
+    top = ctx.func(MISC, "value_to_int")
+    fn = top
     prog = ctx.prog
-    call, pat, subject, mode, flags = find_regex_call(ctx, fn)
+    try:
+        call, pat, subject, mode, flags = find_regex_call(ctx, fn)
+    except AnalysisError:
+        # the string branch may live in a helper that a refactoring extracted: it is analysed in its place, provided value_to_int
+        # hands it the value and returns what it delivers
+        cands = []
+        for h in ctx.new_helpers_called(top):
+            try:
+                cands.append((h, find_regex_call(ctx, h)))
+            except AnalysisError:
+                pass
+        if len(cands) != 1:
+            raise
+        fn, (call, pat, subject, mode, flags) = cands[0]
+        hname = fn.node.name
+        deleg = [q for q in A.spaths(top.node) if q.end == "return" and q.vtext == f"{hname}(value)" and q.assumes(f"{hname}(value) is None", False)]
+        ctx.chk.decide(bool(deleg), "C20.value_to_int.delegation", top.qual, f"the string form is parsed by {hname}(value) and its result returned when there is one", "no returning path hands back the helper's result", "", A.loc(MISC, top.node))
     subj_txt = norm(subject)
     lowered = ".lower()" in subj_txt
     stripped = ".strip()" in subj_txt
@@ -391,14 +409,14 @@ def rule_value_to_int(ctx) -> None:
     read = {c.args[0].value for c in A.calls_in(fn.node, "group") if c.args and isinstance(c.args[0], ast.Constant)}
     ctx.chk.decide(read <= groups, "C20.value_to_int.groups", fn.qual, f"groups read {sorted(read)} exist in the pattern", f"groups read {sorted(read)} vs pattern groups {sorted(groups)}", "", A.loc(MISC, call))
     # failures reach SPSDKError unless a default is given: last statement raises SPSDKError; int path returns value for ints
-    gp = A.gpaths(fn.node)
+    gp = A.gpaths(top.node)
     bad = [repr(q) for q in gp if q.end == "fall" or (q.end == "raise" and "SPSDKError" not in norm(q.last))
            or (q.end == "return" and norm(q.last) == "return default" and not q.assumes("default is None", False))]
     rej = [q for q in gp if q.end == "raise" and q.assumes("default is None", True)]
     ctx.chk.decide(not bad and bool(rej), "C20.value_to_int.reject", fn.qual, "every path returns a conversion, returns a non-None default, or raises SPSDKError",
                    f"{bad[:2]}; rejecting paths {len(rej)}", "raise SPSDKError(...) when nothing converts and no default is given", A.loc(MISC, fn.node))
     # bytes path: big endian, agrees with value_to_bytes default
-    fb = [c for c in A.calls_in(fn.node, "from_bytes")]
+    fb = [c for c in A.calls_in(top.node, "from_bytes")]
     vb = ctx.func(MISC, "value_to_bytes")
     dflt = {a.arg: d for a, d in zip(vb.node.args.args[-len(vb.node.args.defaults):], vb.node.args.defaults)}
     if fb and "endianness" in dflt:
@@ -419,29 +437,27 @@ def rule_value_to_int(ctx) -> None:
 def rule_strides(ctx) -> None:
     # reverse_bytes_in_longs: modulus, stride and window are the same 4
     fn = ctx.func(MISC, "reverse_bytes_in_longs")
-    mods = [n for n in A.walk_no_nested(fn.node) if isinstance(n, ast.BinOp) and isinstance(n.op, ast.Mod)]
-    fors = [n for n in A.walk_no_nested(fn.node) if isinstance(n, ast.For)]
-    if len(mods) != 1 or len(fors) != 1:
-        raise AnalysisError("C20.reverse_bytes_in_longs: shape changed (one modulus guard, one loop expected)")
-    f = fors[0]
-    fold = lambda e: ctx.prog.fold(e, fn.module)  # noqa: E731
-    mod_c = fold(mods[0].right)
-    rng = f.iter
-    stride = fold(rng.args[2]) if isinstance(rng, ast.Call) and A.call_name(rng) == "range" and len(rng.args) == 3 else UNKNOWN
-    start = fold(rng.args[0]) if isinstance(rng, ast.Call) and len(rng.args) == 3 else UNKNOWN
-    win = None
-    var = f.target.id if isinstance(f.target, ast.Name) else None
-    for n in ast.walk(f):
-        if isinstance(n, ast.Subscript) and isinstance(n.slice, ast.Slice) and n.slice.lower is not None and n.slice.upper is not None:
-            if norm(n.slice.lower) == var and isinstance(n.slice.upper, ast.BinOp) and isinstance(n.slice.upper.op, ast.Add) and norm(n.slice.upper.left) == var:
-                win = fold(n.slice.upper.right)
-    guard_raises = any(isinstance(p, ast.If) and A.always_raises(p.body) and isinstance(p.test, ast.Compare) and isinstance(p.test.ops[0], ast.NotEq) and fold(p.test.comparators[0]) == 0 for p in A.ancestors(mods[0]))
-    rev = bool(A.calls_in(f, "reverse")) or any(isinstance(n, ast.Slice) and n.step is not None and fold(n.step) == -1 for n in ast.walk(f))
-    ctx.chk.decide(mod_c == stride == win == 4 and start == 0 and guard_raises and rev, "C20.reverse_bytes_in_longs", fn.qual,
-                   "length guard modulus, loop stride and reversed window are all 4 starting at 0 (partition into longs, each reversed)",
-                   f"modulus={mod_c} start={start} stride={stride} window={win} guard_raises={guard_raises} reversed={rev}", "4 / 0 / 4 / 4, guard raises, word reversed", A.loc(MISC, f))
+    # evaluated on byte strings of every length 0..17: rejected unless a multiple of 4, else every 4-byte word reversed in place
+    cex = None
+    for L in range(0, 18):
+        data = bytes(range(1, L + 1))
+        try:
+            out = ordereval.Evaluator({"arr": data}, ctx.fold_sym(fn), opaque_return=False).run(A.body_of(fn.node))
+        except ordereval.Unsupported as ex:
+            raise AnalysisError(f"C20.reverse_bytes_in_longs: left the fragment: {ex}")
+        if L % 4:
+            good = out.kind == "raise"
+        else:
+            good = out.kind == "return" and isinstance(out.value, (bytes, bytearray)) and bytes(out.value) == b"".join(data[i:i + 4][::-1] for i in range(0, L, 4))
+        if not good and cex is None:
+            cex = (L, out.kind, bytes(out.value).hex() if isinstance(out.value, (bytes, bytearray)) else out.value)
+    ctx.chk.exhaustive_rules.add("C20.reverse_bytes_in_longs")
+    ctx.chk.decide(cex is None, "C20.reverse_bytes_in_longs", fn.qual,
+                   "a length that is not a multiple of 4 is rejected; otherwise the bytes of every 4-byte word are reversed, words stay in place (lengths 0..17)",
+                   f"{cex[0]} bytes: {cex[1]} {cex[2]}" if cex else "", "partition into longs, each reversed", A.loc(MISC, fn.node))
     # swap_bytes: the two mirrored stride-2 slices are exchanged
     fn = ctx.func(MISC, "swap_bytes")
+    fold = lambda e: ctx.prog.fold(e, fn.module)  # noqa: E731
     sw = [n for n in A.walk_no_nested(fn.node) if isinstance(n, ast.Assign) and isinstance(n.targets[0], ast.Tuple) and isinstance(n.value, ast.Tuple)]
     if len(sw) != 1:
         raise AnalysisError("C20.swap_bytes: tuple-swap statement not found")
@@ -524,15 +540,26 @@ def rule_bcd(ctx) -> None:
                  sym_factory=lambda env: (lambda x: env["L"] if isinstance(x, ast.Call) and A.call_name(x) == "len" else None),
                  body=[s for s in body if isinstance(s, ast.If)][:1])
     fs = ctx.own(SBMISC, "BcdVersion3", "from_str")
-    ctor = [c for c in A.calls_in(fs.node, "BcdVersion3")]
-    if not ctor:
-        raise AnalysisError("C20.bcd.from_str: constructor call not found")
-    args = [norm(A.inline_locals(fs.node, a)) for a in ctor[-1].args]
-    import re as _re
-    idx = [(_re.fullmatch(r"(?:BcdVersion3|cls)\._num_from_str\((.+)\[(\d)\]\)", a) or [None, None, None])[2] for a in args]
-    srcs = {(_re.fullmatch(r"(?:BcdVersion3|cls)\._num_from_str\((.+)\[(\d)\]\)", a) or [None, None, None])[1] for a in args}
-    want = ["0", "1", "2"]
-    ctx.chk.decide(idx == want and len(srcs) == 1, "C20.bcd.component-order", fs.qual, "from_str routes parts[0..2] to (major, minor, service)", f"{args}", f"{want}", A.loc(SBMISC, ctor[-1]))
+    # from_str evaluated on texts with 1..4 components: exactly three are accepted, and component i (converted by _num_from_str)
+    # becomes constructor argument i
+    def cv_fs(c: ast.Call, ev):
+        f = norm(c.func)
+        if f in ("BcdVersion3._num_from_str", "cls._num_from_str") and len(c.args) == 1:
+            return ("NUM", ev.ev(c.args[0]))
+        if f in ("BcdVersion3", "cls") and not c.keywords:
+            return ("BCD",) + tuple(ev.ev(a) for a in c.args)
+        return ordereval.NOT_MODELLED
+    probs = []
+    for text in ("7", "1.2", "1.2.3", "a.b.c.d", "10.0.99"):
+        try:
+            out = ordereval.Evaluator({"text": text}, None, opaque_return=False, call_value=cv_fs).run(A.body_of(fs.node))
+        except ordereval.Unsupported as ex:
+            raise AnalysisError(f"C20.bcd.from_str: left the fragment: {ex}")
+        parts = text.split(".")
+        want_o = ("return", ("BCD",) + tuple(("NUM", p_) for p_ in parts)) if len(parts) == 3 else ("raise", None)
+        if (out.kind, out.value if out.kind == "return" else None) != want_o:
+            probs.append(f"{text!r}: {out.kind} {out.value!r}")
+    ctx.chk.decide(not probs, "C20.bcd.component-order", fs.qual, "from_str accepts exactly three dot separated components and routes component i to (major, minor, service)[i]", "; ".join(probs[:2]), "", A.loc(SBMISC, fs.node))
     init = ctx.own(SBMISC, "BcdVersion3", "__init__")
     stores = {norm(n.targets[0]): norm(n.value) for n in A.walk_no_nested(init.node) if isinstance(n, ast.Assign)}
     ctx.chk.decide(all(stores.get(f"self.{k}") == k for k in ("major", "minor", "service")), "C20.bcd.init-routing", init.qual,
@@ -620,21 +647,24 @@ def rule_load_hex_string(ctx) -> None:
 
 def rule_change_endianness(ctx) -> None:
     fn = ctx.func(MISC, "change_endianness")
-    body = A.body_of(fn.node)
-    # dispatch: length 1 -> unchanged; 2 -> reverse; 3 -> raise; multiple of 4 -> reverse_bytes_in_longs; else raise
-    src = norm(fn.node)
+    # evaluated on byte strings of length 0..9 (reverse_bytes_in_longs is stepped into): length 1 unchanged, 2 swapped, 3 rejected,
+    # a multiple of 4 reversed per long, anything else rejected
     cases = {}
-    for st in body:
-        if isinstance(st, ast.If) and isinstance(st.test, ast.Compare) and norm(st.test.left) == "length" and isinstance(st.test.ops[0], ast.Eq):
-            k = ctx.prog.fold(st.test.comparators[0], fn.module)
-            if A.always_raises(st.body):
-                cases[k] = "raise"
-            elif A.calls_in(st, "reverse"):
-                cases[k] = "reverse"
-            else:
-                cases[k] = "same"
-    ok = cases.get(1) == "same" and cases.get(2) == "reverse" and cases.get(3) == "raise"
-    ctx.chk.decide(ok, "C20.change_endianness.dispatch", fn.qual, f"length dispatch {cases}", f"length dispatch {cases}", "{1: same, 2: reverse, 3: raise}", A.loc(MISC, fn.node))
+    for L in range(0, 10):
+        data = bytes(range(0x41, 0x41 + L))
+        try:
+            out = ordereval.Evaluator({"bin_data": data}, ctx.fold_sym(fn), opaque_return=False, call_value=ctx.model_calls(module=MISC)).run(A.body_of(fn.node))
+        except ordereval.Unsupported as ex:
+            raise AnalysisError(f"C20.change_endianness: left the fragment: {ex}")
+        if out.kind == "raise":
+            cases[L] = "raise"
+        elif out.kind == "return" and isinstance(out.value, (bytes, bytearray)):
+            v = bytes(out.value)
+            cases[L] = "same" if v == data and L < 2 else "reverse" if v == data[::-1] and L == 2 else "longs" if v == b"".join(data[i:i + 4][::-1] for i in range(0, L, 4)) and L % 4 == 0 else f"other {v.hex()}"
+        else:
+            cases[L] = out.kind
+    want_c = {0: "same", 1: "same", 2: "reverse", 3: "raise", 4: "longs", 5: "raise", 6: "raise", 7: "raise", 8: "longs", 9: "raise"}
+    ctx.chk.decide(cases == want_c, "C20.change_endianness.dispatch", fn.qual, f"length dispatch {cases}", f"length dispatch {cases}", f"{want_c}", A.loc(MISC, fn.node))
     ctx.chk.decide(bool(A.calls_in(fn.node, "reverse_bytes_in_longs")), "C20.change_endianness.longs", fn.qual, "longer inputs go through reverse_bytes_in_longs", "reverse_bytes_in_longs not used", "", A.loc(MISC, fn.node))
 
 
